@@ -209,3 +209,15 @@ package tuf
 //@   trusted
 //@   pure
 //@   ensures s == pdDownPath(self)
+
+//@ spec rmGlobalRules(r RootMetadata) []GlobalRule
+//@ func ext:(internal/tuf.RootMetadata).GetGlobalRules -> (rs)
+//@   trusted
+//@   pure
+//@   ensures rs == rmGlobalRules(self)
+//@ func ext:(internal/tuf.RootMetadata).GetHooks -> (hs, err)
+//@   trusted
+//@   pure
+//@ func ext:(internal/tuf.RootMetadata).GetPrincipals -> (m)
+//@   trusted
+//@   pure
